@@ -116,6 +116,7 @@ type vfPeer struct {
 	errs    int
 	errText string
 	lastReq *model.PushPullMessage // the latest request sent (a copy may be delivered again later)
+	prevReq *model.PushPullMessage // the request before it (a copy may arrive after the newer one was processed)
 	states  []model.StateOfDatatype
 	lastS   uint64
 	lastC   uint64
@@ -294,6 +295,7 @@ func countState(l []model.StateOfDatatype, s model.StateOfDatatype) int {
 func (p *vfPeer) exchange(w *vfWorld, fault int, held *[]*model.PushPullPack) {
 	req := orda.VFCreatePack(p.cnt)
 	msg := &model.PushPullMessage{Header: model.NewMessageHeader(model.RequestType_PUSHPULLS), Collection: vfCol, Cuid: p.cuid(), PushPullPacks: []*model.PushPullPack{req}}
+	p.prevReq = p.lastReq
 	p.lastReq = copyMsg(msg)
 	if fault == 2 {
 		_, _ = w.svc.ProcessPushPull(gocontext.TODO(), copyMsg(msg))
@@ -337,7 +339,8 @@ func VF_C07_Faults() {
 		steps = 5
 	}
 	trace := ""
-	if vf.Choice("prefix", 2) == 1 {
+	switch vf.Choice("prefix", 3) {
+	case 1:
 		// a fault-free prefix that leaves a request of a in the network whose checkpoint is
 		// older than what a has pulled since: b+ B0 A0 (one step less is explored after it)
 		_, _ = b.cnt.IncreaseBy(vfDeltas[di])
@@ -347,10 +350,29 @@ func VF_C07_Faults() {
 		a.exchange(w, 0, &heldA)
 		trace = "b+B0A0 "
 		steps--
+	case 2:
+		// a fault-free prefix after which a has two answered requests behind it, each of which
+		// pushed an operation (copies of the older one may still be on their way): a+ A0 a+ A0
+		for r := 0; r < 2; r++ {
+			_, _ = a.cnt.IncreaseBy(vfDeltas[di])
+			total += vfDeltas[di]
+			di++
+			a.exchange(w, 0, &heldA)
+		}
+		trace = "a+A0a+A0 "
+		steps -= 2
 	}
 	panicked, msg := vf.Try(func() {
 		for i := 0; i < steps; i++ {
-			switch vf.Choice("step", 6) {
+			switch vf.Choice("step", 7) {
+			case 6: // a copy of an OLDER request of a arrives only now, after a newer one was processed; nobody waits for its answer
+				if a.prevReq == nil {
+					vf.Assume(false)
+				}
+				res, err := w.svc.ProcessPushPull(gocontext.TODO(), copyMsg(a.prevReq))
+				vf.Assert(err == nil && res != nil && len(res.PushPullPacks) == 1, "C16 request is answered")
+				vf.Quiesce()
+				trace += "Oa"
 			case 5: // a second copy of a's latest request is delivered only now; its response reaches a
 				if a.lastReq == nil {
 					vf.Assume(false)
